@@ -126,8 +126,11 @@ def run(rep, tier, seed, replay=None):
             w = p[0].split()
             rep.distinct((w[0], w[1], "cap<=2" if int(w[2]) <= 2 else "cap>2", "P%s" % min(int(w[3]), 2), "C%s" % min(int(w[4]), 2), w[6] if w[0] == "ring" else "rdv" if int(w[6]) == 1 else "gap" if int(w[6]) else "nogap"))
             viol = []
+            if res.result.startswith("result slow"):          # the machine did not run the harness (harness/watchdog.h): no verdict about the queue
+                rep.cov["inconclusive_slow"] = rep.cov.get("inconclusive_slow", 0) + 1
+                continue
             if res.result.startswith("result hung"):
-                viol.append("the queue hung: producers or consumers never finished (30 s)")
+                viol.append("the queue hung: producers or consumers never finished (no element consumed in 20 s in which the machine ran every thread of the harness)")
             if res.result.startswith("result crashed"):
                 viol.append("the queue crashed: " + res.result)
             for l in res.trace:
@@ -157,7 +160,7 @@ def run(rep, tier, seed, replay=None):
                     unlisted = []
             if unlisted and not reported:
                 rep.violation("counterexample", dict(harness="mv_ring", kind_of="conc", program=p, expected=unlisted[0],
-                                                     trace=[l for l in res.trace if not l.startswith("got")][-10:],
+                                                     trace=[l for l in res.trace if not l.startswith("got")][-30:],
                                                      note="real OS-thread races: `--replay` repeats the program 10 times"))
                 reported = True
         rep.cov["concurrent_programs"] = len(progs)
@@ -170,6 +173,8 @@ def run(rep, tier, seed, replay=None):
                        "B: real concurrent runs - 1..4 producer and 1..4 consumer OS threads pushing/popping or sending/receiving 500..20000 tagged "
                        "elements each through queues of capacity 2..64, and RingChannel with consumers blocked in recv() on their own vCPUs and "
                        "paced producers, or producers that aim every push at the moment a consumer using recv(0,0) decides to sleep (per-element latency "
-                       "measured; a latency >= 50 ms - 90 ms for the aimed pushes - must show again in 2 of 3 re-runs to count: a loaded machine produces isolated delays) - every element received is checked by the Lean acceptor (sent, not "
+                       "measured; a latency >= 50 ms - 90 ms for the aimed pushes - must show again in 2 of 3 re-runs to count: a loaded machine produces isolated delays); a run is "
+                       "hung when no element is consumed in two 10 s windows in which the machine ran every thread of the harness (harness/watchdog.h; windows in which a thread "
+                       "was blocked on I/O or starved of CPU are environment windows and do not count) - every element received is checked by the Lean acceptor (sent, not "
                        "received before, later than what that consumer already has from that producer; all received in the end; capacity)")
     rep.sample(seqs[-1] if seqs else (progs[-1] if progs else []))
